@@ -35,6 +35,11 @@ PROGRAMS = [
     ("def t(k: Parameter[bool], a: Qint[2]) -> Qint[2]:\n\treturn g(a) if k else a", dict(k=[True, False]), ["def g(b: Qint[2]) -> Qint[2]:\n\treturn b + 1"]),
     ("def t(c: Parameter[Qint[2]], a: Qint[2]) -> Qint[2]:\n\treturn g(a) + c", dict(c=[0, 1, 3]), ["def g(b: Qint[2]) -> Qint[2]:\n\treturn b + 1"]),
     ("def t(c: Parameter[Qint[2]], a: bool, b: bool) -> bool:\n\treturn h(a, b) if c == 2 else h(b, a)", dict(c=[0, 2, 3]), ["def h(x: bool, y: bool) -> bool:\n\treturn x and not y"]),
+    # the body RE-ASSIGNS a parameter, or an inner function has a formal of the same name (the value must be bound once, at the top - not pasted over every read)
+    ("def t(c: Parameter[bool], a: bool) -> bool:\n\tc = not c\n\treturn a and c", dict(c=[True, False])),
+    ("def t(c: Parameter[bool], a: bool, b: bool) -> bool:\n\tr = a and c\n\tc = b\n\treturn r ^ c", dict(c=[True, False])),
+    ("def t(k: Parameter[Qint[2]], a: Qint[2]) -> Qint[2]:\n\tk = k + a\n\treturn k + 1", dict(k=[0, 1, 3])),
+    ("def t(c: Parameter[bool], a: bool, b: bool) -> bool:\n\tdef g(c: bool, y: bool) -> bool:\n\t\treturn c and not y\n\treturn g(a, b) ^ c", dict(c=[True, False])),
     # results that depend on the DECLARED width of the parameter (the value alone would be typed narrower)
     ("def t(c: Parameter[Qint[4]], a: Qint[4]) -> Qint[4]:\n\treturn (c << 2) + a", dict(c=[0, 1, 2, 3])),
     ("def t(c: Parameter[Qint[4]], a: Qint[2]) -> Qint[4]:\n\treturn c + a", dict(c=[1, 3, 5])),
@@ -127,6 +132,37 @@ def check_bound(src, qf, kw, defs=()):
     return None
 
 
+def check_original_f(src, qf, kw):
+    """the CLASSICAL face after the caller changed the list it had passed: original_f still computes with the values bound (plain ints / bools in, value out)"""
+    params, allargs = param_names(src)
+    fd = ast.parse(src).body[0]
+    anns = {a.arg: ast.unparse(a.annotation) for a in fd.args.args}
+    remaining = [a for a in allargs if a not in params]
+    if any(anns[a] not in ("bool", "Qint[2]") for a in remaining) or "for " in src:
+        return None
+    fd2 = ast.parse(src)
+    for a in fd2.body[0].args.args:
+        a.annotation = None
+    fd2.body[0].returns = None
+    ns = {}
+    exec(compile(fd2, "<ref>", "exec"), ns)
+    ref = ns[fd.name]
+    doms = [[False, True] if anns[a] == "bool" else [0, 1, 2, 3] for a in remaining]
+    for vals in itertools.product(*doms):
+        try:
+            want = ref(**{**dict(zip(remaining, vals)), **kw})
+        except Exception:  # noqa
+            continue
+        try:
+            got = qf.original_f(*vals)
+        except Exception as ex:  # noqa
+            got = f"raises {type(ex).__name__}: {ex}"[:120]
+        if got != want:
+            return dict(parameters=str(kw), arguments=list(vals), observed=repr(got), expected=repr(want),
+                        call="bound = qlassf(program).bind(**parameters); the caller then changes the list object it passed; bound.original_f(*arguments)")
+    return None
+
+
 def fp(qf):
     return ([(a.name, tuple(a.bitvec)) for a in qf.args], [(str(s), str(e)) for s, e in qf.expressions])
 
@@ -154,12 +190,21 @@ def job(a):
         kw = dict(zip(names, combo))
         if ci % 2:
             kw = dict(reversed(list(kw.items())))          # keyword order must not matter
+        import copy as _copy
+        kw_passed = _copy.deepcopy(kw)
         try:
-            qf = uq.bind(**kw)
+            qf = uq.bind(**kw_passed)
         except Exception as ex:  # noqa
             bad = dict(parameters=str(kw), observed=f"bind raises {type(ex).__name__}: {ex}"[:200])
             break
+        # the caller goes on using (and changing) the objects it passed: the bound function must keep the values it was bound to
+        for v_ in kw_passed.values():
+            if isinstance(v_, list):
+                for i_ in range(len(v_)):
+                    v_[i_] = (not v_[i_]) if isinstance(v_[i_], bool) else (v_[i_] + 1 if isinstance(v_[i_], int) else v_[i_])
         f = check_bound(src, qf, kw, defs)
+        if not f and callable(getattr(qf, "original_f", None)) and not defs and any(isinstance(v_, list) for v_ in kw.values()):
+            f = check_original_f(src, qf, kw)
         if f:
             bad = f
             break
